@@ -767,14 +767,39 @@ package sftp
 //@   ensures result == nil
 //@   ensures ghost.ready - ghost.taken == old(ghost.ready) - old(ghost.taken)
 
+//@ ghost var rxOK int
+//@ ghost var fwd int
+
+//@ ghost var workersJoined bool
+//@ ghost var sweeping bool
+
 //@ func (*Server).Serve
-//@   property C07
+//@   property C07, C02, C11
+//@   update before call (*packetManager).workerChan#1: ghost.workersJoined = false
+//@   update before call (*packetManager).workerChan#1: ghost.sweeping = false
+//@   update after call (*sync.WaitGroup).Wait#1: ghost.workersJoined = true
+//@   loop 2 ghost sweeping
+//@   loop 2 invariant ghost.workersJoined
+//@   update before call (file).Name#1: ghost.sweeping = true
+//@   assert before call (file).Close#1: ghost.workersJoined && file == svr.openFiles[handle] && haskey(svr.openFiles, handle)
+//@   ensures ghost.workersJoined
+// (every return of Serve happens after the workers were joined (wg.Wait); the sweep closes exactly the files
+//  still registered in the handle table, each through the entry it iterates over)
+//@   loop 1 ghost rxOK, fwd
+//@   loop 1 invariant ghost.rxOK - ghost.fwd == old(ghost.rxOK) - old(ghost.fwd)
+//@   update after call makePacket#1: ghost.rxOK = ite(ret1 == nil || isErr(ret1, errUnknownExtendedPacket), ghost.rxOK + 1, ghost.rxOK)
+//@   update before send pktChan#1: ghost.fwd = ghost.fwd + 1
 //@   requires serverOK(svr) && svr.Reader != nil
 //@   loop 1 invariant serverOK(svr) && svr.Reader != nil
 //@   assert before send pktChan#1: pkt != nil && (err == nil || isErr(err, errUnknownExtendedPacket))
 
 //@ func (*RequestServer).serveLoop
-//@   property C07
+//@   property C07, C02
+//@   loop 1 ghost rxOK, fwd
+//@   loop 1 invariant ghost.rxOK - ghost.fwd == old(ghost.rxOK) - old(ghost.fwd)
+//@   update after call makePacket#1: ghost.rxOK = ite(ret1 == nil || isErr(ret1, errUnknownExtendedPacket), ghost.rxOK + 1, ghost.rxOK)
+//@   update before send pktChan#1: ghost.fwd = ghost.fwd + 1
+// (every packet that decodes, or names an unknown extension, is forwarded to the workers exactly once: rxOK - fwd is constant)
 //@   requires rs != nil && rs.serverConn != nil && (rs.alloc == nil || rs.alloc.used != nil) && rs.Reader != nil && rs.pktMgr != nil && pmOK(rs.pktMgr)
 //@   loop 1 invariant rs != nil && rs.serverConn != nil && (rs.alloc == nil || rs.alloc.used != nil) && rs.Reader != nil && rs.pktMgr != nil && pmOK(rs.pktMgr)
 //@   assert before send pktChan#1: pkt != nil && (err == nil || isErr(err, errUnknownExtendedPacket))
@@ -1162,3 +1187,18 @@ package sftp
 // (queuesOK -- every slot below len holds a non-nil request resp. an orderedResponse -- is assumed at the loop head:
 //  its preservation through the copy-based pop needs quantified memmove reasoning that the installed solvers do
 //  not decide in time; the QF obligations (head match, release after send, bounds) are proved)
+
+//@ ghost var notified bool
+
+//@ func (*RequestServer).Serve
+//@   property C07, C11
+//@   requires rsOK(rs) && rs.Reader != nil
+//@   update before call (*packetManager).workerChan#1: ghost.workersJoined = false
+//@   update after call (*sync.WaitGroup).Wait#1: ghost.workersJoined = true
+//@   loop 1 ghost notified
+//@   loop 1 invariant ghost.workersJoined && reqsOK(rs) && rs != nil
+//@   update before call (*Request).transferError#1: ghost.notified = true
+//@   assert before call (*Request).transferError#1: arg1 != io.EOF && ghost.workersJoined && arg0 == rs.openRequests[handle] && haskey(rs.openRequests, handle)
+//@   assert before call (*Request).close#1: ghost.notified && !haskey(rs.openRequests, handle) && arg0 == req
+//@   update after call (*Request).close#1: ghost.notified = false
+//@   ensures ghost.workersJoined
